@@ -264,3 +264,85 @@ _add(Cond('batch_reductions_equal_member_reductions', [('op', 'int'), ('axis_fla
         functions=['Batch._ufunc_axis_skipna'],
         bounds=f'Batch of two 3x3 float64 frames in one of four block layouts (symbolic); reduction symbolic over {BATCH_OPS}; axis and skipna symbolic; concrete cells',
         route='Batch.<reduction>(axis, skipna): per label exactly Frame.<reduction>(axis, skipna) of that member; to_frame stacks those results', timeout=300))
+
+
+# ---------------------------------------------------------------- Quilt windows (arrays and Frames) across members of different kinds
+
+Q_KINDS = (('int64', (1, 2, 3, 4)), ('<U1', ('p', 'q', 'r', 's')), ('bool', (True, False, True, False)), ('float64', (0.5, 1.5, 2.5, 3.5)))
+
+
+def body_quilt_windows(env, k0, k1, axis_flag, retain, form, size):
+    from vf import rt
+    ka, kb = concretize(k0, 0, 3), concretize(k1, 0, 3)
+    axis, retain, form, size = (1 if axis_flag else 0), bool(retain), concretize(form, 0, 2), concretize(size, 1, 3)
+
+    def run():
+        sf = env.sf
+        parts = []
+        for k, nm, own in ((ka, 'p', [1, 2]), (kb, 'q', [3, 4])):
+            dt, vals = Q_KINDS[k]
+            if axis == 0:
+                parts.append(sf.Frame.from_items((('a', env.array(list(vals[:2]), dt)), ('b', env.array(list(vals[2:]), dt))), index=own, name=nm))
+            else:
+                parts.append(sf.Frame.from_items(((own[0], env.array(list(vals[:2]), dt)), (own[1], env.array(list(vals[2:]), dt))), index=['a', 'b'], name=nm))
+        q = sf.Quilt(sf.Bus.from_frames(parts), axis=axis, retain_labels=retain)
+        whole = sf.Frame.from_concat(parts, axis=axis) if not retain else sf.Frame.from_concat_items(((f.name, f) for f in parts), axis=axis)
+        kw = dict(size=size, step=1, axis=axis)
+
+        def o(w):
+            if isinstance(w, sf.Frame):
+                return ['F', env.obs(w.values.tolist()), [dt.kind for dt in w.dtypes.values.tolist()] if False else None]
+            return ['A', env.obs(w.tolist())]     # cells with their types; the array dtype of a window inside ONE member is that member's own
+
+        def lab(l):
+            return env.obs(list(l)) if isinstance(l, tuple) else env.obs(l)
+        name = ('iter_window_array_items', 'iter_window_items', 'iter_window_array')[form]
+        if form == 2:
+            got = [o(w) for w in getattr(q, name)(**kw)]
+            exp = [o(w) for w in getattr(whole, name)(**kw)]
+        else:
+            got = [[lab(l), o(w)] for l, w in getattr(q, name)(**kw)]
+            exp = [[lab(l), o(w)] for l, w in getattr(whole, name)(**kw)]
+        return got, exp
+    return rt.untraced(run)
+
+
+_add(Cond('quilt_windows_member_kinds', [('k0', 'int'), ('k1', 'int'), ('axis_flag', 'bool'), ('retain', 'bool'), ('form', 'int'), ('size', 'int')], body_quilt_windows,
+        ranges={'k0': (0, 3), 'k1': (0, 3), 'form': (0, 2), 'size': (1, 3)},
+        functions=['Quilt._extract_array', 'axis_window_items'],
+        bounds='Quilt over two 2x2 members whose dtype kinds are symbolic (int64 / str / bool / float64 each); axis, retain_labels, window size 1..3 and the window interface (array items / Frame items / arrays) symbolic',
+        route='Quilt windows equal the windows of the concatenated Frame: anchor labels and cells (value and type), also when a window spans members of different kinds', timeout=400))
+
+
+# ---------------------------------------------------------------- Batch methods forward every argument
+
+def body_batch_arguments(env, op, axis_flag, skipna, nanpos):
+    from vf import rt
+    op, axis, skipna, nanpos = concretize(op, 0, 4), (1 if axis_flag else 0), bool(skipna), concretize(nanpos, 0, 3)
+
+    def run():
+        sf = env.sf
+
+        def frames():
+            out = []
+            for k, nm in enumerate(('x', 'y')):
+                cells = [[1.0 + k, 2.0], [3.0, 4.0 + k]]
+                if nanpos < 3 and k == 0:
+                    cells[nanpos // 2][nanpos % 2] = env.nan
+                out.append(sf.Frame(env.array(cells, 'float64'), index=[10, 11], columns=['a', 'b'], name=nm))
+            return out
+        calls = [lambda c: c.count(skipna=skipna, axis=axis), lambda c: c.sum(axis=axis, skipna=skipna), lambda c: c.cumsum(axis=axis, skipna=skipna),
+                 lambda c: c.iloc_min(skipna=True, axis=axis) if skipna else c.iloc_max(skipna=True, axis=axis),
+                 lambda c: c.shift(1 if skipna else -1, 0 if axis == 0 else 1, fill_value=-1.0)]
+        res = calls[op](sf.Batch.from_frames(frames()))
+        got = [[env.obs(n), env.obs(r.values.tolist())] for n, r in res.items()]
+        exp = [[f.name, env.obs(calls[op](f).values.tolist())] for f in frames()]
+        return got, exp
+    return rt.untraced(run)
+
+
+_add(Cond('batch_methods_forward_arguments', [('op', 'int'), ('axis_flag', 'bool'), ('skipna', 'bool'), ('nanpos', 'int')], body_batch_arguments,
+        ranges={'op': (0, 4), 'nanpos': (0, 3)},
+        functions=['Batch._apply_attr'],
+        bounds='Batch of two 2x2 float frames, one with a NaN at a symbolic position (or none); count / sum / cumsum / iloc_min | iloc_max / shift (symbolic) with symbolic axis, skipna and shift arguments',
+        route='Batch.<method>(args): per label exactly Frame.<method>(the same args) of that member (no argument dropped or replaced by a default)', timeout=300))
